@@ -44,6 +44,14 @@ class Opaque:
         return f"<{self.text}>"
 
 
+class OpaqueMethod(Opaque):
+    """`obj.attr` where obj is an opaque abstract object: calling it is an event the rule's hook may summarise."""
+
+    def __init__(self, obj, attr):
+        super().__init__(f"{obj.label}.{attr}")
+        self.obj, self.attr = obj, attr
+
+
 class Tmpl:
     def __init__(self, parts):
         flat = []
@@ -175,7 +183,7 @@ class Outcome:
 
 
 class Interp:
-    def __init__(self, idx, sym_compare=None, max_depth=8, opaque_attr_ok=True, isinstance_hook=None, call_hook=None):
+    def __init__(self, idx, sym_compare=None, max_depth=8, opaque_attr_ok=True, isinstance_hook=None, call_hook=None, may_subclass=False):
         self.idx = idx
         self.sym_compare = sym_compare  # (a, opname, b) -> bool | None
         self.max_depth = max_depth
@@ -185,6 +193,8 @@ class Interp:
         self.isinstance_hook = isinstance_hook
         self.call_hook = call_hook  # (interp, callee_text, recv, args, kwargs) -> value | NotImplemented
         self.cur_cls = None
+        # may_subclass: an opaque object declared as class K may be an instance of any strict subclass of K
+        self.may_subclass = may_subclass
 
     # ------------------------------------------------------------------ driver
     def explore(self, fn, max_runs=512):
@@ -436,8 +446,14 @@ class Interp:
         elif isinstance(s, ast.While):
             n = 0
             try:
-                while self.truth(self.expr(s.test, env, cls), U(s.test)):
+                while True:
+                    before = len(self.chooser.trace)
+                    if not self.truth(self.expr(s.test, env, cls), U(s.test)):
+                        break
+                    unknown = len(self.chooser.trace) > before
                     n += 1
+                    if unknown and n > 2:
+                        break  # bounded unrolling for conditions the domain cannot decide
                     if n > 64:
                         raise Unsupported("unbounded while loop")
                     try:
@@ -732,7 +748,7 @@ class Interp:
             if attr in obj.fields:
                 return obj.fields[attr]
             if obj.opaque:
-                return Opaque(f"{obj.label}.{attr}")
+                return OpaqueMethod(obj, attr)
             m = self.idx.resolve_method(obj.cls, attr)
             if m:
                 return BoundMethod(obj, m)
@@ -1002,6 +1018,12 @@ class ContainerMethod:
     def call(self, interp, args, kwargs, text):
         c = self.c
         interp.events.append(("container", self.name, c, args))
+        if self.name in ("add", "discard") and isinstance(c, list):
+            if self.name == "add" and not any(x is args[0] for x in c):
+                c.append(args[0])
+            if self.name == "discard":
+                c[:] = [x for x in c if x is not args[0]]
+            return None
         if self.name in ("append", "extend", "insert", "remove", "pop", "clear", "update", "get", "keys", "values", "items", "index", "copy", "setdefault"):
             try:
                 r = getattr(c, self.name)(*args)
@@ -1045,7 +1067,11 @@ def _b_isinstance(i, a, k, t):
     if isinstance(obj, AObj):
         if obj.cls in i.idx.classes:
             mro = i.idx.mro(obj.cls)
-            return any(n in mro for n in names)
+            if any(n in mro for n in names):
+                return True
+            if obj.opaque and i.may_subclass and any(n in i.idx.classes and obj.cls in i.idx.mro(n) for n in names):
+                return i.chooser.choose(t)
+            return False
         return obj.cls in names
     if isinstance(obj, Opaque):
         if obj.cls is not None and obj.cls in i.idx.classes:
